@@ -13,74 +13,66 @@ import (
 
 // ---- H09c: callback (the subscriber of the network) --------------------------------------------------------
 //
-// One transaction + payload as delivered by the network: creation (a key is embedded) or update, with
-// arbitrary integrity defects (payload type, payload hash, signing time), a payload that is not a DID
-// document, and a document with arbitrary well-formedness defects; against a small world of stored documents.
+// One transaction + payload as delivered by the network: creation (a key is embedded) or update; sound, or
+// with one integrity defect (payload type, payload hash, signing time), a payload that is not a DID document,
+// or a document with one well-formedness defect; against a small world of stored documents.
 
-type hDefects struct {
-	noContext    bool // @context lacks the DID v1 context
-	foreignKeyID bool // a verificationMethod id that belongs to another DID
-	wrongKeyID   bool // a verificationMethod id whose fragment is not the key's thumbprint
-	services     int
-	foreignSvcID bool // a service id that belongs to another DID
-	sameSvcType  bool // two services of one type
-	sameSvcID    bool // two services with one id
-}
+const (
+	hOK              = iota
+	hBadPayloadType  // the transaction announces another payload type
+	hNoSigningTime   // signing time is the zero time
+	hNoPayloadHash   // payload hash is the zero hash
+	hNotADocument    // the payload cannot be decoded as DID document
+	hNoContext       // @context lacks the DID v1 context
+	hForeignMethodID // a verificationMethod id that belongs to another DID
+	hWrongMethodID   // a verificationMethod id whose fragment is not the key's thumbprint
+	hForeignSvcID    // a service id that belongs to another DID
+	hSvcNoFragment   // a service id without fragment
+	hSameSvcType     // two services of one type
+	hSameSvcID       // two services with one id
+	hDefectKinds
+)
 
-func (d hDefects) wellFormed() bool {
-	return !d.noContext && !d.foreignKeyID && !d.wrongKeyID && !d.foreignSvcID && !d.sameSvcType && !d.sameSvcID
-}
-
-// vDefects damages the proposed document of u in place.
-func vDefects(u *hUpdate) hDefects {
-	var d hDefects
+// vDefect: the delivered transaction/document has at most one defect (drawn here); the proposed document of u
+// gets two services and is damaged in place.
+func vDefect(u *hUpdate) int {
+	kind := vChoice(hDefectKinds)
 	doc := &u.proposed
-	if d.noContext = vBool(); d.noContext {
+	ids := [2]string{"did:nuts:0#s0", "did:nuts:0#s1"}
+	types := [2]string{"type0", "type1"}
+	switch kind {
+	case hBadPayloadType:
+		u.tx.ptype = "application/vc+json"
+	case hNoSigningTime:
+		u.tx.sigt = time.Time{}
+	case hNoPayloadHash:
+		u.tx.payloadHash = hash.SHA256Hash{}
+	case hNoContext:
 		doc.Context = []interface{}{ssi.MustParseURI("https://example.com/other")}
+	case hForeignMethodID:
+		doc.VerificationMethod[0].ID.DID = hDID(1)
+	case hWrongMethodID:
+		doc.VerificationMethod[0].ID.Fragment = hThumbID(u.propKeys[0]) + "x"
+	case hForeignSvcID:
+		ids[1] = "did:nuts:1#s1"
+	case hSvcNoFragment:
+		ids[0] = "did:nuts:0"
+	case hSameSvcType:
+		types[1] = types[0]
+	case hSameSvcID:
+		ids[1] = ids[0]
 	}
-	if len(doc.VerificationMethod) > 0 {
-		switch vChoice(3) {
-		case 1:
-			d.foreignKeyID = true
-			doc.VerificationMethod[0].ID.DID = hDID(1)
-		case 2:
-			d.wrongKeyID = true
-			doc.VerificationMethod[0].ID.Fragment = hThumbID(u.propKeys[0]) + "x"
-		}
+	for i := range ids {
+		doc.Service = append(doc.Service, did.Service{ID: ssi.MustParseURI(ids[i]), Type: types[i], ServiceEndpoint: "https://example.com"})
 	}
-	d.services = vLen(0, 2)
-	for i := 0; i < d.services; i++ {
-		id := "did:nuts:0#s" + string(rune('0'+i))
-		typ := "type" + string(rune('0'+i))
-		if i == 0 {
-			if d.foreignSvcID = vBool(); d.foreignSvcID {
-				id = "did:nuts:1#s0"
-			}
-		} else {
-			switch vChoice(3) {
-			case 1:
-				d.sameSvcType = true
-				typ = "type0"
-			case 2:
-				d.sameSvcID = true
-				id = doc.Service[0].ID.String()
-			}
-		}
-		doc.Service = append(doc.Service, did.Service{ID: ssi.MustParseURI(id), Type: typ, ServiceEndpoint: "https://example.com"})
-	}
-	return d
+	return kind
 }
 
 func H09c() {
+	// proposed documents always carry a key here (2 shapes: with and without controller entries)
 	u := vUpdate(hBounds{vParam("c_docs", 2), vParam("c_vers", 1), vParam("c_ctrl", 1), 0, 1, vParam("c_prevs", 1), 2})
 	tx := u.tx
-	// integrity defects
-	if vBool() {
-		tx.ptype = "application/vc+json"
-	}
-	if vBool() {
-		tx.sigt = time.Time{}
-	}
+	vAssume(tx.payloadHash != hash.SHA256Hash{})
 	// creation or update
 	creation := vBool()
 	var embedded string
@@ -89,10 +81,9 @@ func H09c() {
 		embedded = vString(1)
 		tx.key = &hKey{x: embedded}
 	}
-	defects := vDefects(u)
-	garbage := vBool()
+	defect := vDefect(u)
 	payload, _ := json.Marshal(u.proposed)
-	if garbage {
+	if defect == hNotADocument {
 		payload = []byte("{")
 	}
 
@@ -106,16 +97,18 @@ func H09c() {
 		if len(u.store.adds) > 0 {
 			vCover("store-failure")
 		}
+		if defect != hOK {
+			vCover("rejected-defect")
+			vAssert(len(u.store.adds) == 0, "H09c.defective_never_reaches_store: a defective transaction or document reached the store")
+		}
 		return
 	}
 	vCover("accepted")
 	vAssert(effective && len(u.store.adds) == 1, "H09c.accepted_is_stored_once: callback reported success without storing the document exactly once")
 	vAssert(len(u.net.discovered) == 1 && u.net.discovered[0].Equals(u.proposed.ID), "H09c.accepted_announced: service discovery not triggered for the stored document")
-	vAssert(tx.ptype == DIDDocumentType, "H09c.payload_type: accepted a transaction with a foreign payload type")
-	vAssert(tx.payloadHash != hash.SHA256Hash{}, "H09c.payload_hash_set: accepted a transaction without payload hash")
-	vAssert(!tx.sigt.IsZero(), "H09c.signing_time_set: accepted a transaction without signing time")
-	vAssert(!garbage, "H09c.payload_is_document: accepted a payload that is not a DID document")
-	vAssert(defects.wellFormed(), "H09c.document_well_formed: accepted a document that violates the DID-core/Nuts rules")
+	vAssert(defect != hBadPayloadType && defect != hNoSigningTime && defect != hNoPayloadHash, "H09c.transaction_integrity: accepted a transaction with a foreign payload type, without payload hash or without signing time")
+	vAssert(defect != hNotADocument, "H09c.payload_is_document: accepted a payload that is not a DID document")
+	vAssert(defect == hOK, "H09c.document_well_formed: accepted a document that violates the DID-core/Nuts rules")
 	if creation {
 		vCover("accepted-creation")
 		vAssert(u.proposed.ID.ID == hThumbID(embedded), "H09c.creation_did_is_key_thumbprint: accepted a creation whose DID is not the thumbprint of the embedded key")
